@@ -13,6 +13,8 @@
 //   - trafficshape/handler.go: decrementCount of Halt and CloseConnection is
 //     `if x.Count > 0 { x.Count-- }`, ChangeBandwidth.getCount returns -1
 //
+//   - trafficshape/conn.go (*Conn).Write: in `case *Halt:` Unlock and RUnlock precede time.Sleep
+//
 // It fails loudly (exit 1) when the expected shape is gone.
 package main
 
@@ -227,6 +229,60 @@ func main() {
 		die("handler.go: (*ChangeBandwidth).decrementCount is not a no-op")
 	}
 
+	// lock discipline: in (*Conn).Write, `case *Halt:` releases the shape's lock and the
+	// shape map's read lock BEFORE time.Sleep (no sleep while holding Shapes' locks)
+	cf := parse(*repo, "trafficshape/conn.go")
+	wr := funcDecl(cf, "Conn", "Write")
+	if wr == nil {
+		die("conn.go: (*Conn).Write not found")
+	}
+	haltOK := false
+	ast.Inspect(wr, func(x ast.Node) bool {
+		cc, ok := x.(*ast.CaseClause)
+		if !ok || len(cc.List) != 1 {
+			return true
+		}
+		se, ok := cc.List[0].(*ast.StarExpr)
+		if !ok {
+			return true
+		}
+		if id, ok := se.X.(*ast.Ident); !ok || id.Name != "Halt" {
+			return true
+		}
+		sleepAt, unlockAt, runlockAt := -1, -1, -1
+		for i, st := range cc.Body {
+			es, ok := st.(*ast.ExprStmt)
+			if !ok {
+				continue
+			}
+			ce, ok := es.X.(*ast.CallExpr)
+			if !ok {
+				continue
+			}
+			sel, ok := ce.Fun.(*ast.SelectorExpr)
+			if !ok {
+				continue
+			}
+			switch sel.Sel.Name {
+			case "Sleep":
+				if sleepAt < 0 {
+					sleepAt = i
+				}
+			case "Unlock":
+				unlockAt = i
+			case "RUnlock":
+				runlockAt = i
+			}
+		}
+		if sleepAt >= 0 && unlockAt >= 0 && runlockAt >= 0 && unlockAt < sleepAt && runlockAt < sleepAt {
+			haltOK = true
+		}
+		return true
+	})
+	if !haltOK {
+		die("conn.go: (*Conn).Write `case *Halt:` does not release the shape lock (Unlock) and the shape map's read lock (RUnlock) before time.Sleep")
+	}
+
 	var sb strings.Builder
 	sb.WriteString("(* GENERATED by harness/cmd/gen_c18 from trafficshape/{listener,utils,handler}.go.\n   Do not edit: rewritten on every vcheck run when the source changes. *)\n")
 	sb.WriteString("From Coq Require Import ZArith.\nOpen Scope Z_scope.\n\n")
@@ -235,6 +291,7 @@ func main() {
 	sb.WriteString("(* listener.go NewBuckets: per-connection buckets drain every time.Second *)\nDefinition drain_interval_ms : Z := 1000.\n\n")
 	fmt.Fprintf(&sb, "(* handler.go: ChangeBandwidth.getCount *)\nDefinition bw_action_count : Z := %s.\n\n", cbCount)
 	sb.WriteString("(* handler.go: Halt/CloseConnection decrementCount = `if Count > 0 { Count-- }`;\n   ChangeBandwidth.decrementCount is a no-op, both shapes checked by the translator *)\nDefinition dec_count (c : Z) : Z := if 0 <? c then c - 1 else c.\n")
+	sb.WriteString("\n(* conn.go Write, case Halt: Unlock and RUnlock come before time.Sleep (checked by the translator):\n   a halt never holds the listener-wide shape map's lock *)\nDefinition halt_sleeps_without_shape_locks : bool := true.\n")
 	if err := os.WriteFile(filepath.Join(*out, "Gen_Shape.v"), []byte(sb.String()), 0o644); err != nil {
 		die("%v", err)
 	}
